@@ -11,6 +11,32 @@ INLINE = ["plain words", "''italic''", "'''bold'''", "[[link|text]]", "[[plain l
           "p [<noinclude/>[q <b>r</b> s]<noinclude/>] t", "{{{1|d}}}", "[[a|'''b''']]", "x <ref name=\"r\">note</ref> y"]
 
 
+ARGS = ["", "x", " ", "k=v", "k=", "{{a}}", "[[l]]", "''i''", "a b", "1=z", "y"]
+
+
+def gen_call(rng):
+    """templates, parser functions, template arguments, links and external links with random argument lists
+    (empty arguments, a lone colon, trailing pipes)"""
+    args = [rng.choice(ARGS) for _ in range(rng.randint(0, 3))]
+    k = rng.random()
+    if k < 0.3:
+        return "{{" + rng.choice(["a", "tpl"]) + "".join("|" + a for a in args) + "}}"
+    if k < 0.6:
+        fn = rng.choice(["#if", "#ifeq", "uc", "lc", "PAGENAME", "#switch", "#expr", "NAMESPACE"])
+        if not args:
+            return "{{" + fn + rng.choice(["", ":"]) + "}}"
+        return "{{" + fn + ":" + "|".join(args) + "}}"
+    if k < 0.75:
+        return "{{{" + rng.choice(["1", "k"]) + "".join("|" + a for a in args[:2] if "=" not in a) + "}}}"
+    if k < 0.9:
+        return "[[Target" + "".join("|" + a.replace("[[l]]", "l") for a in args) + "]]"
+    return "[http://x.y/p" + rng.choice(["", " t", " two words", " ''i''"]) + "]"
+
+
+def inline(rng):
+    return gen_call(rng) if rng.random() < 0.3 else rng.choice(INLINE)
+
+
 def gen_doc(rng):
     parts = []
     cid = [0]
@@ -21,10 +47,10 @@ def gen_doc(rng):
             lvl = rng.randint(2, 5)
             parts[-1] = "%s Title %d %s\n" % ("=" * lvl, rng.randint(1, 99), "=" * lvl)
         elif r < 0.5:
-            parts.append(" ".join(rng.choice(INLINE) for _ in range(rng.randint(1, 3))) + "\n\n")
+            parts.append(" ".join(inline(rng) for _ in range(rng.randint(1, 3))) + "\n\n")
         elif r < 0.7:
             for _ in range(rng.randint(1, 3)):
-                parts.append("%s %s\n" % ("".join(rng.choice("*#") for _ in range(rng.randint(1, 3))), rng.choice(INLINE)))
+                parts.append("%s %s\n" % ("".join(rng.choice("*#") for _ in range(rng.randint(1, 3))), inline(rng)))
         elif r < 0.85:
             t = c03.gen_table(rng, cid)
             t["caption"] = None if rng.random() < 0.8 else t["caption"]
